@@ -184,6 +184,8 @@ class Walker:
                 if t[0] == "variant" and t[1][0] == "try":
                     # (Try::branch(x) as Continue).0 / (.. as Break).0
                     x = t[1][1]
+                    while x[0] == "maperr" and t[2] == "Continue":
+                        x = x[1]
                     if t[2] == "Continue" and x[0] == "agg" and x[1] == "adt" and x[3] in ("Ok", "Some") and x[4]:
                         t = x[4][0]
                     elif t[2] == "Break" and x[0] == "from_residual":
@@ -204,6 +206,11 @@ class Walker:
                 t = ("proj", t, str(e))
             if read and t in mem:
                 t = mem[t]
+            elif read and st.get("x_dirty"):
+                for base, res in st["x_dirty"]:
+                    if _mentions(t, base) and t[0] == "field":
+                        t = ("after", res, t)
+                        break
         return t
 
     def operand(self, st, o):
@@ -402,7 +409,10 @@ class Walker:
                 dest = t["dest"]
                 forks = None
                 if fname == TRANSPARENT_TRY and len(args) == 1:
-                    res = ("try", args[0])
+                    a0 = args[0]
+                    while isinstance(a0, tuple) and a0 and a0[0] == "maperr":
+                        a0 = a0[1]          # map_err keeps Ok-ness: branch on the underlying result
+                    res = ("try", a0)
                 elif fname == FROM_RESIDUAL and len(args) == 1:
                     res = ("from_residual", args[0])
                 else:
@@ -418,7 +428,9 @@ class Walker:
                         for a in args:
                             if a[0] == "ref" and a in st["mutrefs"]:
                                 for key in [kk for kk in st["mem"] if _mentions(kk, a[1])]:
-                                    del st["mem"][key]
+                                    st["mem"][key] = ("after", res, st["mem"][key])
+                                if a[1][0] != "local":
+                                    st.setdefault("x_dirty", []).append((a[1], res))
                                 if a[1][0] == "local" and len(a[1]) > 2 and a[1][2] == self.body.path and a[1][1] in st["env"]:
                                     st["env"][a[1][1]] = ("after", res, st["env"][a[1][1]])
                 if forks is None:
